@@ -112,6 +112,37 @@ def report(ctx, entry, cls, rep, what):
 # -------------------------------------------------------------------------------------------------
 # wire generators
 # -------------------------------------------------------------------------------------------------
+def build_big_message(rng):
+    """raw wire of a response of a little over 16 KiB in which an owner name straddles offset 0x4000 (the end of
+    what a compression pointer can address) and later owner names reuse its suffixes"""
+    import struct as _st
+
+    def nw(labels):
+        return b"".join(bytes([len(l)]) + l for l in labels) + b"\0"
+
+    def rr(owner, rdtype, rdata, ttl=300):
+        return owner + _st.pack("!HHIH", rdtype, 1, ttl, len(rdata)) + rdata
+
+    labels = [rng.choice([b"aaaa", b"bb", b"c", b"dddddddd", b"Ee"]) for _ in range(rng.choice([2, 3, 4, 6]))]
+    L = len(nw(labels))
+    start = 0x4000 - rng.below(L + 2) + 1          # anywhere from wholly below the limit to starting on it
+    nrec = 2 + rng.below(3)
+    wire = _st.pack("!HHHHHH", rng.below(65536), 0x8400, 1, 1 + nrec, 0, 0)
+    wire += nw([b"a"]) + _st.pack("!HH", 16, 1)
+    fill = start - (len(wire) + 2 + 10)
+    txt = b""
+    while fill > 256:
+        txt += b"\xff" + b"p" * 255
+        fill -= 256
+    txt += bytes([fill - 1]) + b"q" * (fill - 1)
+    wire += rr(b"\xc0\x0c", 16, txt)
+    wire += rr(nw(labels), 1, bytes([192, 0, 2, 1]))
+    for k in range(nrec - 1):
+        suffix = labels[rng.below(len(labels)):]
+        wire += rr(nw([b"x%d" % k] + suffix), 1, bytes([192, 0, 2, 2 + k]))
+    return wire
+
+
 def build_message(rng):
     m = dns.message.make_query(rng.choice(["example.", "www.example.", "a.b.example."]), rng.choice(["A", "SOA", "TXT", "ANY"]))
     m.id = rng.below(65536)
@@ -935,6 +966,16 @@ def generate(ctx: Ctx, scale: int, rng):
         c = {"kind": "msg.text", "text": t, "orr": rng.below(2)}
         ctx.case(("mt", t, c["orr"]), sample=c if len(t) < 100 else None)
         eval_case(ctx, c)
+    for _ in range(max(6, n(6) // 2)):
+        try:
+            w = build_big_message(rng)
+        except Exception as e_:  # generator problem, not a verdict
+            ctx.count("gen.big-message-failed:" + type(e_).__name__)
+            continue
+        c = {"kind": "msg", "wire": w.hex(), "opts": {}}
+        ctx.case(("msg-big", w))
+        eval_case(ctx, c)
+        ctx.count("msg.big")
     for _ in range(n(2500)):
         w = gen_parser_wire(rng)
         lib = rng.chance(1, 2)
